@@ -40,6 +40,11 @@ def run(ctx):
     check_ws_agreement(ctx)
     check_strip_semicolon(ctx)
     RL.check_singleton_lock(ctx, 'R4.6')
+    # "the stripped text of exactly the statements parse() returns": parse() groups, split() does not -- grouping must leave the text alone
+    from .. import rules_tree as RT
+    ctx.rule('R4.9', 'grouping does not change the text of a statement: functions reachable from grouping.group edit the tree only via group_tokens', floor=30)
+    RT.check_effect_confinement(ctx, 'R4.9')
+    RT.check_group_tokens(ctx, 'R4.9')
     # every rule above reads the lexer through its tables; that the scan loop applies them faithfully is decided by interpretation
     ctx.rule('R4.S', 'Lexer.get_tokens interpreted on short texts agrees token by token with the rule-table model the other rules use', floor=1)
     RL.check_scan_semantics(ctx, 'R4.S')
